@@ -293,7 +293,8 @@ def oracle_evt(ctx, L, H, enc_method, proc_method, thetas, nenc=1, V=None):
 SETTER_NAME = {"theta": "set_theta", "enc": "set_encoding_qubits", "aux": "set_auxiliary_qubits", "anc": "set_auxiliary_qubits",
                "method": "set_method", "thetas": "set_theta_seq", "H": "replacing the encoded operator",
                "H_inplace": "changing the encoded operator in place", "block": "replacing the block encoding gate",
-               "proc_theta": "processing.set_theta", "circuit": "as_circuit", "matrix": "as_matrix", None: "construction"}
+               "proc_theta": "processing.set_theta", "circuit": "as_circuit", "matrix": "as_matrix",
+               "proc_circuit": "processing.as_circuit", None: "construction"}
 
 
 def embed(nw, wires, A):
@@ -352,7 +353,7 @@ def history_verdict(ctx, prefix, held, k, op, last_setter, dev_of, inp_of):
     return False
 
 
-def oracle_phase_history(ctx, W, init, ops):
+def oracle_phase_history(ctx, W, init, ops, collect=None):
     """ProjectorControlledPhaseShift on a register of W qubits (one field).
     init = {theta, enc: [wires], aux: wire | None, method}; ops: ["theta", t] | ["enc", [wires]] | ["aux", w] |
     ["method", m] | ["circuit"] | ["matrix"].  Returns the number of objects checked."""
@@ -402,9 +403,11 @@ def oracle_phase_history(ctx, W, init, ops):
             raise ValueError(op)
         nchk += len(held)
         if history_verdict(ctx, "history:phase-shift", held, k, op, last_setter, dev_of, inp_of):
-            break
+            return -1
         if op[0] not in ("circuit", "matrix"):
             last_setter = op[0]
+    if collect is not None:
+        collect.extend((h, [f]) for h in held)
     return nchk
 
 
@@ -415,7 +418,7 @@ def fresh_encoding(f_sys, H, enc_method):
                                                      getattr(qib.operator.BlockEncodingMethod, enc_method)).as_matrix())
 
 
-def oracle_evt_history(ctx, W2, L, init, ops):
+def oracle_evt_history(ctx, W2, L, init, ops, collect=None):
     """EigenvalueTransformation on the fields [f2 (W2 qubits: auxiliary + candidate encoding qubits), f_sys (L qubits)].
     init = {H, enc_method, proc_method, thetas, enc: wire in f2, anc: wire in f2, bind: "before"|"after"};
     ops: ["thetas", [..]] | ["enc", w] | ["anc", w] | ["method", m] | ["H", mat] | ["H_inplace", mat] | ["block", enc_method] |
@@ -455,6 +458,8 @@ def oracle_evt_history(ctx, W2, L, init, ops):
 
     def dev_of(h):
         s = h.snap
+        if h.what == "proc_circuit":      # the user's processing.as_circuit(): compared exactly by the Coq model only
+            return 0.0
         U = s["U"]
         P = [np.kron(shift_ref(1, th), np.identity(2 ** L)) for th in s["thetas"]]
         ref = alt_product(P, U, np.linalg.inv(U), len(s["thetas"]))
@@ -503,14 +508,133 @@ def oracle_evt_history(ctx, W2, L, init, ops):
             s = snap()
             s["href"], s["enc_method"] = et.block_encoding.h, sh["enc_method"]
             held.append(Held(op[0], obj, s, k))
+        elif op[0] == "proc_circuit":
+            held.append(Held("proc_circuit", et.processing.as_circuit(), {"method": sh["method"], "href": None}, k))
         else:
             raise ValueError(op)
         nchk += len(held)
         if history_verdict(ctx, "history:evt", held, k, op, last_setter, dev_of, inp_of):
-            break
-        if op[0] not in ("circuit", "matrix"):
+            return -1
+        if op[0] not in ("circuit", "matrix", "proc_circuit"):
             last_setter = op[0]
+    if collect is not None:
+        collect.extend((h, [f2, f_sys]) for h in held)
     return nchk
+
+
+# ---- the same histories as exact cases for the Coq state-machine model (Qubitization.HistCheck)
+HIST_HEADER = ("From Coq Require Import PrimFloat.\nFrom Qib Require Import Qubitization.HistCheck.\nFrom Run Require Import GenQubitization GenQubitHist.\n")
+HIST_FN = "bad_hist_cases gen_cphase gen_aux gen_evt_mat gen_evt_circ gen_pmat gen_pcps_setters gen_evt_setters"
+
+
+def qlit(x):
+    return ct.q(Fraction(float(x)))
+
+
+def natl(ws):
+    return ct.lst([ct.nat(w) for w in ws])
+
+
+def pstate_term(theta, enc, aux, auxm):
+    return "{| ps_theta := %s; ps_enc := %s; ps_aux := %s; ps_auxm := %s |}" % (qlit(theta), natl(enc), natl(aux), ct.b(auxm))
+
+
+def abs_gate_terms(gates, fields):
+    """gate terms with ABSOLUTE angles; None if a gate kind is not modelled"""
+    ts = [gate_term(g, fields, 1) for g in gates]
+    return None if any(t is None for t in ts) else ts
+
+
+def phase_hist_case(init, ops, collected):
+    """(Coq term, description) of a ProjectorControlledPhaseShift history; the observations are read NOW (at the end)"""
+    auxm = init["method"] == "auxiliary"
+    st0 = pstate_term(init["theta"], init["enc"], [init["aux"]] if auxm else [], auxm)
+    calls, obs = [], []
+    for op in ops:
+        calls.append({"theta": lambda: "CSet (SetTheta %s)" % qlit(op[1]), "enc": lambda: "CSet (SetEnc %s)" % natl(op[1]),
+                      "aux": lambda: "CSet (SetAux %s)" % natl([op[1]]), "method": lambda: "CSet (SetMethod %s)" % ct.b(op[1] == "auxiliary"),
+                      "circuit": lambda: "CGet PGCircuit", "matrix": lambda: "CGet PGMatrix"}[op[0]]())
+    for h, fields in collected:
+        if h.what == "circuit":
+            ts = abs_gate_terms(h.obj.gates, fields)
+            if ts is None:
+                return None
+            obs.append("POCircuit %s" % ct.lst(ts))
+        else:
+            A = np.asarray(h.obj)
+            dg = np.diag(A) if A.ndim == 2 and np.abs(A - np.diag(np.diag(A))).max() < 1e-12 else []
+            obs.append("POMatrix %s %s %s" % (qlit(h.snap["theta"]), ct.fi(np.exp(1j * h.snap["theta"])), ct.lst([ct.fi(z) for z in dg])))
+    return "HPhase %s %s %s" % (st0, ct.lst(calls), ct.lst(obs))
+
+
+def evt_hist_case(init, ops, collected):
+    import qib
+    auxm = init["proc_method"] == "auxiliary"
+    proc0 = pstate_term(0.0, [init["enc"]], [init["anc"]] if auxm else [], auxm)
+    st0 = "{| es_seq := %s; es_proc := %s; es_benc := %s |}" % (ct.lst([qlit(t) for t in init["thetas"]]), proc0, natl([init["enc"]]))
+    base = getattr(qib.operator.BlockEncodingMethod, init["enc_method"])
+    calls, obs = [], []
+    for op in ops:
+        calls.append({"thetas": lambda: "CSet (ESetSeq %s)" % ct.lst([qlit(t) for t in op[1]]),
+                      "enc": lambda: "CSet (ESetEnc %s)" % natl([op[1]]), "anc": lambda: "CSet (ESetAnc %s)" % natl([op[1]]),
+                      "method": lambda: "CSet (ESetMethod %s)" % ct.b(op[1] == "auxiliary"),
+                      "proc_theta": lambda: "CSet (EProcTheta %s)" % qlit(op[1]),
+                      "circuit": lambda: "CGet EGCircuit", "matrix": lambda: "CGet EGMatrix",
+                      "proc_circuit": lambda: "CGet EGProcCircuit"}[op[0]]())
+    from qib.util import map_particle_to_wire
+    for h, fields in collected:
+        if h.what == "matrix":
+            obs.append("EOMatrix")
+        elif h.what == "proc_circuit":
+            ts = abs_gate_terms(h.obj.gates, fields)
+            if ts is None:
+                return None
+            obs.append("EOProc %s" % ct.lst(ts))
+        else:
+            ts = []
+            for g in h.obj.gates:
+                if type(g) is qib.operator.BlockEncodingGate:
+                    ts.append("EU %s %s" % (ct.b(g.method != base), natl([map_particle_to_wire(fields, q) for q in g.auxiliary_qubits])))
+                else:
+                    t = gate_term(g, fields, 1)
+                    if t is None:
+                        return None
+                    ts.append("EG (%s)" % t)
+            obs.append("EOCircuit %s" % ct.lst(ts))
+    return "HEvt %s %s %s %s" % (ct.b(init["enc_method"] == "R"), st0, ct.lst(calls), ct.lst(obs))
+
+
+def gen_evt_model_history(rng, dyadic, distinct_angles):
+    """history with the setters the Coq model has (exact dyadic angles), incl. the user's calls on the shared processing object"""
+    W2 = 3
+    wires = list(range(W2))
+    rng.shuffle(wires)
+    method = rng.choice(["auxiliary", "c-phase"])
+    init = {"H": cplx_list(rand_herm(rng, 1)), "enc_method": rng.choice(["Wx", "Wxi", "R"]), "proc_method": method,
+            "thetas": distinct_angles(rng.randint(1, 5)), "enc": wires[0], "anc": wires[1], "bind": "before"}
+    cur = {"enc": wires[0], "anc": wires[1], "method": method}
+    ops = [[rng.choice(["circuit", "matrix"])]]
+    for _ in range(rng.randint(2, 5)):
+        r = rng.random()
+        if r < 0.3:
+            ops.append(["thetas", distinct_angles(rng.randint(1, 6))])
+        elif r < 0.5:
+            free = [w for w in range(W2) if w not in (cur["enc"], cur["anc"] if cur["method"] == "auxiliary" else None)]
+            cur["enc"] = rng.choice(free)
+            ops.append(["enc", cur["enc"]])
+        elif r < 0.6 and cur["method"] == "auxiliary":
+            cur["anc"] = rng.choice([w for w in range(W2) if w not in (cur["enc"], cur["anc"])])
+            ops.append(["anc", cur["anc"]])
+        elif r < 0.75:
+            cur["method"] = "c-phase" if cur["method"] == "auxiliary" else "auxiliary"
+            ops.append(["method", cur["method"]])
+            if cur["method"] == "auxiliary":
+                cur["anc"] = rng.choice([w for w in range(W2) if w != cur["enc"]])
+                ops.append(["anc", cur["anc"]])
+        else:
+            ops.append(["proc_theta", dyadic()])
+        ops.append([rng.choice(["circuit", "circuit", "matrix", "proc_circuit"])])
+    return W2, 1, init, ops
 
 
 def gen_phase_history(rng, dyadic, thorough):
@@ -643,8 +767,18 @@ def run(ctx):
                        "user-defined block encoding with 2-3 encoding qubits); projection state all zeros (the only one as_circuit accepts)")
     nmax = 8 if ctx.thorough else 4          # Coq correspondence: number of encoding qubits
     lmax = 24 if ctx.thorough else 9         # Coq correspondence: number of angles
-    ctx.lib(["Qubitization/QubitCheck", "Qubitization/EvtProofs", "Qubitization/QubitReal"])
+    ctx.lib(["Qubitization/QubitCheck", "Qubitization/EvtProofs", "Qubitization/QubitReal",
+             "Qubitization/HistProofs", "Qubitization/HistCheck"])
     ok_tr = ctx.translate("GenQubitization", gen.generate)
+    # setters + what the getters do to the object (separate module: its diagnosis survives a refusal of the first translator)
+    ok_hist = ctx.translate("GenQubitHist", gen.generate_hist)
+    try:
+        facts = gen.hist_facts()
+        ctx.oblige("source:getters-build-new-objects", "translator", all(k == "GFresh" for k, _ in facts.values()),
+                   "; ".join("%s: %s" % (c, d) for c, (k, d) in facts.items()))
+    except Exception as e:
+        ctx.oblige("source:getters-build-new-objects", "translator", False, "%s: %s" % (type(e).__name__, e))
+    ok_tr = ok_tr and ok_hist
     if ok_tr:
         ctx.props()
     else:
@@ -883,20 +1017,38 @@ def run(ctx):
                     hists.append(("evt", 3, 1, init, [["circuit"], ["matrix"]] + setter + [["circuit"], ["matrix"]]))
     for _ in range(60 if ctx.thorough else 14):
         hists.append(("evt",) + gen_evt_history(rng, distinct_angles, ctx.thorough))
+    for _ in range(60 if ctx.thorough else 16):
+        hists.append(("evt",) + gen_evt_model_history(rng, dyadic, distinct_angles))
+    hcases = []
+    MODELLED = {"theta", "enc", "aux", "anc", "method", "thetas", "proc_theta", "circuit", "matrix", "proc_circuit"}
     for hst in hists:
         kind = hst[0]
         ctx.count("history_%s" % kind)
-        setters = sorted({o[0] for o in hst[-1] if o[0] not in ("circuit", "matrix")})
+        setters = sorted({o[0] for o in hst[-1] if o[0] not in ("circuit", "matrix", "proc_circuit")})
         for s in setters:
             ctx.count("history_%s_with_%s" % (kind, SETTER_NAME[s].replace(" ", "_")))
+        got = []
         try:
-            nchk = oracle_phase_history(ctx, *hst[1:]) if kind == "phase" else oracle_evt_history(ctx, *hst[1:])
+            nchk = oracle_phase_history(ctx, *hst[1:], collect=got) if kind == "phase" else oracle_evt_history(ctx, *hst[1:], collect=got)
         except Exception as e:
             inp = ({"kind": "phase-history", "W": hst[1], "init": hst[2], "ops": hst[3]} if kind == "phase" else
                    {"kind": "evt-history", "W2": hst[1], "L": hst[2], "init": hst[3], "ops": hst[4]})
             ctx.fail("history:%s:exception:%s" % (kind, type(e).__name__), inp, "every call of the history succeeds", repr(e))
             continue
+        if nchk < 0:
+            continue        # a concrete failing history was reported
         ctx.count("history_object_comparisons", nchk)
+        # the same history as an exact case of the Coq state-machine model (setters the model has; exact angles)
+        if {o[0] for o in hst[-1]} <= MODELLED and hst[-2].get("bind", "before") == "before":
+            term = phase_hist_case(hst[-2], hst[-1], got) if kind == "phase" else evt_hist_case(hst[-2], hst[-1], got)
+            if term is None:
+                ctx.oblige("correspondence:gate-kinds", "correspondence", False, "unmodelled gate kind in a history")
+            else:
+                hdesc = {"kind": kind + "-history", "op": "history vs state-machine model",
+                         "init": {k: v for k, v in hst[-2].items() if k != "H"}, "ops": hst[-1]}
+                hcases.append((term, hdesc))
+                ctx.nontriv(hdesc)
+                ctx.count("history_%s_model_cases" % kind)
         oracle_only({"kind": kind + "-history", "init": {k: v for k, v in hst[-2].items() if k != "H"}, "nops": len(hst[-1]),
                      "setters": setters}, True)
         if len(hst[-1]) >= 6 and ("history", kind) not in sampled:
@@ -906,6 +1058,7 @@ def run(ctx):
 
     if ok_tr:
         dis = ctx.cases("qubitization", HEADER, cases, fn="bad_cases gen_cphase gen_aux gen_evt_circ gen_pmat")
+        dis += ctx.cases("histories", HIST_HEADER, hcases, fn=HIST_FN, shard=40)
         for i, d in dis[:5]:
             ctx.log("model/impl disagree on", d)
         if ctx.thorough and not ctx.broken:
